@@ -206,7 +206,7 @@ def backward_slice(ctx, fi, expr, depth=2, frames=None, _seen=None):
         _seen.add(id(e))
         out.append((frames, e))
         for c in [x for x in ast.walk(e) if isinstance(x, ast.Call)]:
-            if depth > 0:
+            if depth > 0 and id(c) not in _seen:
                 for q in call_targets(ctx, fi, c):
                     g = prog.functions.get(q)
                     if g is None or g.is_generator:
@@ -225,8 +225,38 @@ def backward_slice(ctx, fi, expr, depth=2, frames=None, _seen=None):
                 continue
             done.add(nm)
             for n in walk_body(fi.node):
-                if isinstance(n, ast.Assign) and any(isinstance(x, ast.Name) and x.id == nm for t in n.targets for x in ast.walk(t)):
+                if isinstance(n, ast.Assign) and any(isinstance(t, ast.Name) and t.id == nm for t in n.targets):
                     work.append(n.value)
+                elif isinstance(n, ast.Assign) and any(isinstance(t, (ast.Tuple, ast.List)) and any(isinstance(x, ast.Name) and x.id == nm for x in t.elts) for t in n.targets):
+                    # a, b = ...: follow only the element this name receives when the right side is a tuple or a helper returning tuples
+                    t = [t for t in n.targets if isinstance(t, (ast.Tuple, ast.List))][0]
+                    idx = [k for k, x in enumerate(t.elts) if isinstance(x, ast.Name) and x.id == nm][0]
+                    val = n.value
+                    if isinstance(val, (ast.Tuple, ast.List)) and len(val.elts) == len(t.elts):
+                        work.append(val.elts[idx])
+                    elif isinstance(val, ast.Call) and depth > 0 and call_targets(ctx, fi, val):
+                        handled = False
+                        for q in call_targets(ctx, fi, val):
+                            g = prog.functions.get(q)
+                            if g is None or g.is_generator:
+                                continue
+                            ps = [p for p in g.params if not (g.cls is not None and not g.is_static and p in ("self", "cls"))]
+                            binding = dict(zip(ps, val.args))
+                            binding.update({k.arg: k.value for k in val.keywords if k.arg})
+                            for r in [x for x in walk_body(g.node) if isinstance(x, ast.Return) and x.value is not None]:
+                                rv = r.value
+                                if isinstance(rv, (ast.Tuple, ast.List)) and len(rv.elts) == len(t.elts):
+                                    rv = rv.elts[idx]
+                                out += backward_slice(ctx, g, rv, depth - 1, frames + ((g, binding),), _seen)
+                                handled = True
+                        if handled:
+                            _seen.add(id(val))
+                            for a in list(val.args) + [k.value for k in val.keywords]:
+                                work.append(a)
+                        else:
+                            work.append(val)
+                    else:
+                        work.append(val)
                 elif isinstance(n, ast.AugAssign) and isinstance(n.target, ast.Name) and n.target.id == nm:
                     work.append(n.value)
     return out
